@@ -15,9 +15,13 @@ for s in $seeds; do
   want=$(python3 -c "import json;print(json.load(open('$d/meta.json')).get('detected_by_check','')[:6].lower())" 2>/dev/null)
   if ! git -C /repo apply --check $PWD/$d/patch.diff 2>/dev/null; then echo "$s: patch does not apply (skipped)"; continue; fi
   git -C /repo apply $PWD/$d/patch.diff
+  # the run on the changed tree must not replace the evidence of the unchanged tree
+  cp evidence/$prop.json /tmp/selftest.ev.$$ 2>/dev/null
   ./check $prop > /tmp/selftest.$s.log 2>&1
   rc=$?
   git -C /repo checkout -- .
+  [ -f /tmp/selftest.ev.$$ ] && mv /tmp/selftest.ev.$$ evidence/$prop.json
+  rm -rf replay/$prop
   got=missed; [ $rc -ne 0 ] && got=caught
   flag=""
   if [ "$want" = "caught" ] && [ $got = missed ]; then flag="  <-- REGRESSION"; bad=1; fi
